@@ -251,13 +251,13 @@ class ArrayCrash(AH.ArrayHistory):
         if rng.random() < 0.4:
             create['metadata'] = M.gen_dict(rng, n=rng.choice([1, 2]))
         ops = [create]
-        for _ in range(rng.choice([0, 0, 1, 2, 4])):
+        for _ in range(rng.choice([0, 0, 1, 2, 4] + ([6, 8] if tier == 'thorough' else []))):
             ops.append(self.gen_op(rng))
         kind = rng.choice(['append', 'iterappend', 'iterappend', 'iterappend_fail', 'truncate', 'truncate',
                            'meta_set', 'meta_update', 'meta_pop', 'meta_del'])
         co = {'op': 'crashop', 'kind': kind}
         if kind in ('append', 'iterappend', 'iterappend_fail'):
-            n = 1 if kind == 'append' else rng.choice([1, 2, 3, 4])
+            n = 1 if kind == 'append' else rng.choice([1, 2, 3, 4] + ([5, 6] if tier == 'thorough' else []))
             co['chunks'] = [self.gen_data(rng, rows=rng.choice([1, 1, 2, 3, 5]), other_dtype_p=0.15) for _ in range(n)]
             co['as'] = rng.choice(['list', 'generator'])
             if kind == 'iterappend_fail':
@@ -482,7 +482,7 @@ class RaggedCrash(RH.RaggedHistory):
                            'meta_set', 'meta_pop'])
         co = {'op': 'crashop', 'kind': kind}
         if kind in ('append', 'iterappend', 'iterappend_fail'):
-            n = 1 if kind == 'append' else rng.choice([1, 2, 3, 4])
+            n = 1 if kind == 'append' else rng.choice([1, 2, 3, 4] + ([5, 6] if tier == 'thorough' else []))
             co['items'] = [self.gen_item(rng, other_p=0.15) for _ in range(n)]
             co['as'] = rng.choice(['list', 'generator'])
             if kind == 'iterappend_fail':
